@@ -11,6 +11,9 @@
 //   - for each of those functions: the package-level identifiers of package dosnode it refers to
 //     (other functions, constants, variables) – a new helper, cache or pool shows up here;
 //   - the import list of dos_stages.go;
+//   - for the content functions: every call into time / rand / os / runtime / sync / … whose value
+//     could reach the result (contentForbidden, pinned to []), the clock reads that only feed logging
+//     (contentClockVars), and the operand of every range statement (contentRanges);
 //   - group bookkeeping: the statements that carry the member list announced in LogGrouping from
 //     handleGrouping (dos_chain_handler.go) into the group table of share/dkg/pedersen/pdkg.go
 //     (Grouping up to LoadOrStore, GetGroupIDs, GroupDissolve), every write of the field
@@ -268,6 +271,99 @@ func pkgRefs(f *ast.File, fd *ast.FuncDecl) []string {
 	return out
 }
 
+// Reads of anything that is not an argument of the content function: calls into time, math/rand,
+// crypto/rand, os, runtime, syscall, sync, sync/atomic, unsafe, reflect inside fd.
+//   - a call inside a logging statement is left out (with the statement);
+//   - `v := pkg.F(...)` is a "clock variable": allowed only if EVERY later use of v is inside a
+//     logging statement (then it is listed in clock, else in forbidden);
+//   - any other such call is forbidden.
+// Also: the operand of every range statement (a range over a map would make the order of the result
+// depend on the run).
+var impurePkgs = map[string]bool{"time": true, "rand": true, "os": true, "runtime": true, "syscall": true, "sync": true, "atomic": true, "unsafe": true, "reflect": true}
+
+func impure(fset *token.FileSet, fd *ast.FuncDecl) (forbidden, clock, ranges []string) {
+	name := fd.Name.Name
+	logStmt := func(n ast.Node) bool {
+		switch x := n.(type) {
+		case *ast.ExprStmt:
+			return isLog(src(fset, x))
+		case *ast.DeferStmt:
+			if _, lit := x.Call.Fun.(*ast.FuncLit); lit {
+				return false
+			}
+			return isLog(src(fset, x))
+		}
+		return false
+	}
+	enclosing := func(stack []ast.Node) ast.Node { // nearest enclosing statement that is not a block
+		for i := len(stack) - 1; i >= 0; i-- {
+			if st, ok := stack[i].(ast.Stmt); ok {
+				if _, blk := st.(*ast.BlockStmt); !blk {
+					return st
+				}
+			}
+		}
+		return nil
+	}
+	head := func(n ast.Node) string {
+		t := src(fset, n)
+		if i := strings.Index(t, " {"); i >= 0 {
+			t = t[:i]
+		}
+		return t
+	}
+	walk := func(visit func(n ast.Node, stack []ast.Node)) {
+		var stack []ast.Node
+		ast.Inspect(fd.Body, func(n ast.Node) bool {
+			if n == nil {
+				stack = stack[:len(stack)-1]
+				return true
+			}
+			visit(n, stack)
+			stack = append(stack, n)
+			return true
+		})
+	}
+	vars := map[*ast.Object]*ast.Ident{}
+	walk(func(n ast.Node, stack []ast.Node) {
+		switch x := n.(type) {
+		case *ast.RangeStmt:
+			ranges = append(ranges, name+": "+src(fset, x.X))
+		case *ast.CallExpr:
+			sel, ok := x.Fun.(*ast.SelectorExpr)
+			if !ok {
+				return
+			}
+			id, ok := sel.X.(*ast.Ident)
+			if !ok || id.Obj != nil || !impurePkgs[id.Name] {
+				return
+			}
+			st := enclosing(stack)
+			if st != nil && logStmt(st) {
+				return
+			}
+			if as, ok := st.(*ast.AssignStmt); ok && as.Tok == token.DEFINE && len(as.Lhs) == 1 && len(as.Rhs) == 1 && as.Rhs[0] == ast.Expr(x) {
+				if v, ok := as.Lhs[0].(*ast.Ident); ok && v.Obj != nil {
+					vars[v.Obj] = v
+					clock = append(clock, name+": "+src(fset, as))
+					return
+				}
+			}
+			forbidden = append(forbidden, name+": "+src(fset, x)+" in `"+head(st)+"`")
+		}
+	})
+	walk(func(n ast.Node, stack []ast.Node) {
+		id, ok := n.(*ast.Ident)
+		if !ok || id.Obj == nil || vars[id.Obj] == nil || vars[id.Obj] == id {
+			return
+		}
+		if st := enclosing(stack); st == nil || !logStmt(st) {
+			forbidden = append(forbidden, name+": "+id.Name+" is used outside logging in `"+head(st)+"`")
+		}
+	})
+	return
+}
+
 func leanList(name string, xs []string) string {
 	s := fmt.Sprintf("def %s : List String := [", name)
 	for i, x := range xs {
@@ -321,6 +417,16 @@ func run(repo string) (string, error) {
 	}
 	s += "/-- dataParse: the calls in source order with their arguments -/\n" + leanList("dataParseCalls", callsOf(fset, decl["dataParse"]))
 	s += "/-- dataFetch: the calls in source order with their arguments -/\n" + leanList("dataFetchCalls", callsOf(fset, decl["dataFetch"]))
+
+	// what the content functions read besides their arguments
+	var forb, clk, rng []string
+	for _, n := range []string{"dataParse", "dataFetch", "genQueryResult", "genSysRandom", "genUserRandom", "choseSubmitter", "padOrTrim"} {
+		f, c, r := impure(fset, decl[n])
+		forb, clk, rng = append(forb, f...), append(clk, c...), append(rng, r...)
+	}
+	s += "/-- content functions (dataParse, dataFetch, genQueryResult, genSysRandom, genUserRandom, choseSubmitter, padOrTrim): calls into time / rand / os / runtime / syscall / sync / atomic / unsafe / reflect outside logging statements whose value can reach the result -/\n" + leanList("contentForbidden", forb)
+	s += "/-- …: `v := time.Now()`-like reads whose every later use is inside a logging statement -/\n" + leanList("contentClockVars", clk)
+	s += "/-- …: the operand of every range statement -/\n" + leanList("contentRanges", rng)
 
 	// recover wrapper: the FIRST statement of dataParse is `defer func() { if r := recover(); r != nil { msg, err = nil, … } }()`
 	rec := false
